@@ -36,6 +36,18 @@ type Reply struct {
 	Body         []byte
 	CL           *string // nil: len(Body); otherwise the literal header value ("" = no header)
 	ReadErrAfter int     // > 0: the body reader fails after that many octets
+	// Stream > 0: instead of Body, a stream of that many zero octets is sent
+	// without a content-length (a chunked / decompressed response).
+	Stream int64
+}
+
+type zeroStream struct{}
+
+func (zeroStream) Read(p []byte) (int, error) {
+	for i := range p {
+		p[i] = 0
+	}
+	return len(p), nil
 }
 
 // Server is the simulated DoH upstream.
@@ -261,6 +273,11 @@ func (s *Server) RoundTrip(req *http.Request) (*http.Response, error) {
 		cl = -1
 	}
 	var rd io.Reader = bytes.NewReader(rep.Body)
+	if rep.Stream > 0 {
+		rd = io.LimitReader(zeroStream{}, rep.Stream)
+		h.Del("Content-Length")
+		cl = -1
+	}
 	if rep.ReadErrAfter > 0 {
 		rd = &failingReader{r: rd, left: rep.ReadErrAfter}
 	}
@@ -277,7 +294,8 @@ func (s *Server) BuildAnswer(z *Zone, id uint16, qu Question) *Msg {
 	ans, rc := z.Lookup(qu.Name, qu.Type)
 	m := &Msg{ID: id, Flags: 0x8180 | uint16(rc), Question: []Question{qu}, Answer: ans}
 	for i := range z.Poison {
-		if z.Poison[i].Type == qu.Type {
+		// poisoned CNAMEs (owned by unrelated names) ride along with every answer
+		if z.Poison[i].Type == qu.Type || z.Poison[i].Type == TypeCNAME {
 			m.Answer = append(m.Answer, z.Poison[i])
 		}
 	}
